@@ -4,6 +4,7 @@ package main
 // MsgServer / keeper / precompile / end blocker, the store projection after every operation.
 
 import (
+	"crypto/ecdsa"
 	"time"
 	"encoding/binary"
 	"encoding/hex"
@@ -26,19 +27,19 @@ import (
 )
 
 const (
-	maxOracles   = 48  // oracle universe of a history (ids 0..47)
-	spareBridger = 100 // bridger ids >= 100 are spare keys not initially bound to any oracle
-	spareExt     = 200 // external ids >= 200: external addresses of no oracle
+	maxOracles   = 104 // oracle universe of a history (ids 0..103; the code allows at most 100 approved oracles)
+	spareBridger = 500 // bridger ids >= 500 are spare keys not initially bound to any oracle
+	spareExt     = 600 // external ids >= 600: external addresses of no oracle
 )
 
 // Op is a replayable operation descriptor (everything needed to re-execute it on a fresh chain).
 type Op struct {
-	Kind    string  `json:"kind"` // vote exec exec_evm bond add slash gov unbond edit block window
+	Kind    string  `json:"kind"` // vote exec exec_evm bond add slash gov unbond edit block window confirm batch bcall install
 	Oracle  int     `json:"oracle,omitempty"`
 	Bridger int     `json:"bridger,omitempty"` // vote: id of the bridger put into the claim; bond/edit: bridger id
 	Ext     int     `json:"ext,omitempty"`
 	Nonce   uint64  `json:"nonce,omitempty"`
-	CKind   string  `json:"ckind,omitempty"` // claim kind: fx token oset call
+	CKind   string  `json:"ckind,omitempty"` // claim kind: fx token oset call callre; confirm: oset batch bcall (Nonce = key, Ext = external id)
 	Variant int     `json:"variant,omitempty"`
 	Members []int   `json:"members,omitempty"` // oset claim: external ids
 	Stake   int64   `json:"stake,omitempty"`   // whole FX
@@ -63,6 +64,15 @@ type obsT struct {
 	atts    []attObs
 	pending []uint64
 	oracles []orcObs
+	osets   []objObs
+	batches []objObs
+	bcalls  []objObs
+	cursors [3]uint64
+	window  uint64
+}
+type objObs struct {
+	key, height uint64
+	confirms    []int64 // external-address ids, ascending
 }
 type attObs struct {
 	nonce uint64
@@ -77,6 +87,7 @@ type orcObs struct {
 	online  bool
 	bridger int64
 	slash   int64
+	start   int64
 }
 
 type hist struct {
@@ -107,6 +118,7 @@ type hist struct {
 	cfg   string
 
 	reInstalled map[uint64]bool
+	batchNonce  uint64
 
 	// generator bookkeeping (what the generator believes; never used by the monitor)
 	unbondCount map[int]int
@@ -412,17 +424,46 @@ func (h *hist) apply(o Op) (accepted bool, errStr string) {
 		h.installReentrant(o.Nonce)
 		return true, ""
 	case "window":
-		// module parameter change through the authority-guarded handler; no model operation
+		// module parameter change through the authority-guarded handler
 		p := h.x.Keeper.GetParams(h.c.Ctx)
 		p.SignedWindow = o.Window
-		_, e := ms.UpdateParams(h.c.Ctx, &crosschaintypes.MsgUpdateParams{ChainName: h.module, Authority: lib.GovAuthority(), Params: p})
-		lib.Must(e)
-		return true, ""
+		err, events = h.try(func(ctx sdk.Context) error {
+			_, e := ms.UpdateParams(ctx, &crosschaintypes.MsgUpdateParams{ChainName: h.module, Authority: lib.GovAuthority(), Params: p})
+			return e
+		})
+		lib.Must(err)
+		coqOps = append(coqOps, fmt.Sprintf("SetWindow %d", o.Window))
+	case "batch":
+		// an outgoing batch created in this block (stored the way BuildOutgoingTxBatch stores it; at most one per block)
+		h.batchNonce++
+		tok := h.extAddr(60)
+		err, events = h.try(func(ctx sdk.Context) error {
+			return h.x.Keeper.StoreBatch(ctx, &crosschaintypes.OutgoingTxBatch{BatchNonce: h.batchNonce, BatchTimeout: 1 << 40, TokenContract: tok,
+				Block: uint64(ctx.BlockHeight()), FeeReceive: tok})
+		})
+		if err != nil {
+			h.batchNonce--
+		}
+		coqOps = append(coqOps, "AddBatch")
+	case "bcall":
+		user := lib.EthKey(h.seed, "bcalluser", 0)
+		err, events = h.try(func(ctx sdk.Context) error {
+			_, e := ms.BridgeCall(ctx, &crosschaintypes.MsgBridgeCall{ChainName: h.module, Sender: user.Acc().String(), Refund: user.Acc().String(),
+				To: h.extAddr(61), Value: sdkmath.ZeroInt()})
+			return e
+		})
+		coqOps = append(coqOps, "AddBCall")
+	case "confirm":
+		// oracle-set / batch / bridge-call confirmation through the real handlers, signed with the external key
+		// that belongs to external id o.Ext (eth-style chains)
+		err, events = h.try(func(ctx sdk.Context) error { return h.confirm(ctx, o) })
+		coqOps = append(coqOps, fmt.Sprintf("Confirm %d %d %d", map[string]int{"oset": 0, "batch": 1, "bcall": 2}[o.CKind], o.Nonce, o.Ext))
 	case "block":
-		// the listed oracles confirm every open oracle set, then the REAL end blocker runs
-		h.confirmOracleSets(o.List)
+		// the REAL end blocker (and begin blocker of the next block) runs; which oracles it slashes is the MODEL's
+		// prediction now (M_EndBlock.slashing inside M_Attest.end_block); the only thing read off the implementation
+		// is whether an oracle set request was created
 		onlineBefore := map[int64]bool{}
-		for _, oc := range h.readOracles() {
+		for _, oc := range pre.ob.oracles {
 			onlineBefore[oc.id] = oc.online
 		}
 		setNonceBefore := h.x.Keeper.GetLatestOracleSetNonce(h.c.Ctx)
@@ -439,28 +480,16 @@ func (h *hist) apply(o Op) (accepted bool, errStr string) {
 			h.rep.Fail(lib.Failure{Kind: "harness", What: "block processing failed in " + h.name + ": " + short(err), Sig: "harness:block"})
 			return false, short(err)
 		}
-		var slashed []int
 		for _, oc := range h.readOracles() {
 			if onlineBefore[oc.id] && !oc.online {
-				slashed = append(slashed, int(oc.id))
+				h.rep.Count("block:oracle-slashed-by-end-blocker")
 			}
 		}
-		refreshed := h.x.Keeper.GetLatestOracleSetNonce(h.c.Ctx) != setNonceBefore
-		pre.blockSlashed = slashed
-		if len(slashed) > 0 {
-			h.rep.Count("block:end-blocker-slashed-oracles")
-		}
-		if refreshed {
+		newset := h.x.Keeper.GetLatestOracleSetNonce(h.c.Ctx) != setNonceBefore
+		if newset {
 			h.rep.Count("block:oracle-set-request(refresh)")
 		}
-		// model operations of a block boundary: keeper.slashing (refreshes the total itself when it slashed),
-		// then AddOracleSetRequest's refresh when an oracle set request was created
-		if len(slashed) > 0 || !refreshed {
-			coqOps = append(coqOps, "SlashPass "+intList(slashed))
-		}
-		if refreshed {
-			coqOps = append(coqOps, "Refresh")
-		}
+		coqOps = append(coqOps, "EndBlock "+lib.Bool(newset))
 	default:
 		panic("unknown op kind " + o.Kind)
 	}
@@ -522,34 +551,70 @@ func intList(l []int) string {
 	return "[" + strings.Join(s, "; ") + "]"
 }
 
-// confirmOracleSets: the listed oracles sign every stored oracle set they have not confirmed yet (eth-style chains only).
-func (h *hist) confirmOracleSets(list []int) {
-	if h.module == "tron" {
-		return
+// extKey: the external private key behind external id (own key of oracle id, or a spare one)
+func (h *hist) extKey(ext int) *ecdsa.PrivateKey {
+	if ext >= spareExt {
+		return h.x.NewOracle(1000 + ext - spareExt).External
 	}
+	return h.orc[ext%maxOracles].External
+}
+
+// confirm: one confirmation through the real handler (OracleSetConfirm / ConfirmBatch / BridgeCallConfirm).
+func (h *hist) confirm(ctx sdk.Context, o Op) error {
 	k := h.x.Keeper
-	gid := k.GetGravityID(h.c.Ctx)
-	for _, set := range k.GetOracleSets(h.c.Ctx) {
-		cp, err := set.GetCheckpoint(gid)
-		if err != nil {
-			continue
+	gid := k.GetGravityID(ctx)
+	extAddr := h.extOf[int64(o.Ext)]
+	bridger := h.bridgerKey(o.Ext % maxOracles).Acc().String()
+	if oa, found := k.GetOracleAddrByExternalAddr(ctx, extAddr); found {
+		if rec, ok := k.GetOracle(ctx, oa); ok {
+			bridger = rec.BridgerAddress
 		}
-		for _, i := range list {
-			oc := h.orc[i]
-			rec, found := k.GetOracle(h.c.Ctx, oc.Oracle.Acc())
-			if !found {
-				continue
-			}
-			sig, err := crosschaintypes.NewEthereumSignature(cp, oc.External)
+	}
+	sign := func(cp []byte) string {
+		sig, err := crosschaintypes.NewEthereumSignature(cp, h.extKey(o.Ext))
+		lib.Must(err)
+		return hex.EncodeToString(sig)
+	}
+	switch o.CKind {
+	case "oset":
+		set := k.GetOracleSet(ctx, o.Nonce)
+		sigHex := "00"
+		if set != nil {
+			cp, err := set.GetCheckpoint(gid)
 			lib.Must(err)
-			_, _ = h.try(func(ctx sdk.Context) error {
-				_, e := h.x.Msg().OracleSetConfirm(ctx, &crosschaintypes.MsgOracleSetConfirm{
-					Nonce: set.Nonce, BridgerAddress: rec.BridgerAddress, ExternalAddress: rec.ExternalAddress,
-					Signature: hex.EncodeToString(sig), ChainName: h.module,
-				})
-				return e
-			})
+			sigHex = sign(cp)
 		}
+		_, e := h.x.Msg().OracleSetConfirm(ctx, &crosschaintypes.MsgOracleSetConfirm{Nonce: o.Nonce, BridgerAddress: bridger,
+			ExternalAddress: extAddr, Signature: sigHex, ChainName: h.module})
+		return e
+	case "batch": // o.Nonce is the creation block, the model's key
+		var bt *crosschaintypes.OutgoingTxBatch
+		for _, b := range k.GetOutgoingTxBatches(ctx) {
+			if b.Block == o.Nonce {
+				bt = b
+			}
+		}
+		if bt == nil {
+			_, e := h.x.Msg().ConfirmBatch(ctx, &crosschaintypes.MsgConfirmBatch{Nonce: 1 << 50, TokenContract: h.extAddr(60), BridgerAddress: bridger,
+				ExternalAddress: extAddr, Signature: "00", ChainName: h.module})
+			return e
+		}
+		cp, err := bt.GetCheckpoint(gid)
+		lib.Must(err)
+		_, e := h.x.Msg().ConfirmBatch(ctx, &crosschaintypes.MsgConfirmBatch{Nonce: bt.BatchNonce, TokenContract: bt.TokenContract, BridgerAddress: bridger,
+			ExternalAddress: extAddr, Signature: sign(cp), ChainName: h.module})
+		return e
+	default: // bcall
+		bc, found := k.GetOutgoingBridgeCallByNonce(ctx, o.Nonce)
+		sigHex := "00"
+		if found {
+			cp, err := bc.GetCheckpoint(gid)
+			lib.Must(err)
+			sigHex = sign(cp)
+		}
+		_, e := h.x.Msg().BridgeCallConfirm(ctx, &crosschaintypes.MsgBridgeCallConfirm{ChainName: h.module, BridgerAddress: bridger,
+			ExternalAddress: extAddr, Nonce: o.Nonce, Signature: sigHex})
+		return e
 	}
 }
 
@@ -568,7 +633,7 @@ func (h *hist) readOracles() []orcObs {
 		if !ok {
 			b = -1
 		}
-		out = append(out, orcObs{id: id, stake: o.DelegateAmount.BigInt(), online: o.Online, bridger: b, slash: o.SlashTimes})
+		out = append(out, orcObs{id: id, stake: o.DelegateAmount.BigInt(), online: o.Online, bridger: b, slash: o.SlashTimes, start: o.StartHeight})
 	}
 	sort.Slice(out, func(i, j int) bool { return out[i].id < out[j].id })
 	return out
@@ -615,6 +680,40 @@ func (h *hist) observe() obsT {
 	}
 	sort.Slice(ob.pending, func(i, j int) bool { return ob.pending[i] < ob.pending[j] })
 	ob.oracles = h.readOracles()
+	// what the end blocker's slashing phase reads
+	k := h.x.Keeper
+	extIDs := func(addrs []string) []int64 {
+		var l []int64
+		for _, a := range addrs {
+			id, ok := h.eid[a]
+			if !ok {
+				id = -1
+			}
+			l = append(l, id)
+		}
+		sort.Slice(l, func(i, j int) bool { return l[i] < l[j] })
+		return l
+	}
+	for _, set := range k.GetOracleSets(ctx) {
+		var cs []string
+		k.IterateOracleSetConfirmByNonce(ctx, set.Nonce, func(c *crosschaintypes.MsgOracleSetConfirm) bool { cs = append(cs, c.ExternalAddress); return false })
+		ob.osets = append(ob.osets, objObs{set.Nonce, set.Height, extIDs(cs)})
+	}
+	for _, b := range k.GetOutgoingTxBatches(ctx) {
+		var cs []string
+		k.IterateBatchConfirmByNonceAndTokenContract(ctx, b.BatchNonce, b.TokenContract, func(c *crosschaintypes.MsgConfirmBatch) bool { cs = append(cs, c.ExternalAddress); return false })
+		ob.batches = append(ob.batches, objObs{b.Block, b.Block, extIDs(cs)})
+	}
+	sort.Slice(ob.batches, func(i, j int) bool { return ob.batches[i].key < ob.batches[j].key })
+	k.IterateOutgoingBridgeCalls(ctx, func(bc *crosschaintypes.OutgoingBridgeCall) bool {
+		var cs []string
+		k.IterBridgeCallConfirmByNonce(ctx, bc.Nonce, func(c *crosschaintypes.MsgBridgeCallConfirm) bool { cs = append(cs, c.ExternalAddress); return false })
+		ob.bcalls = append(ob.bcalls, objObs{bc.Nonce, bc.BlockHeight, extIDs(cs)})
+		return false
+	})
+	sort.Slice(ob.bcalls, func(i, j int) bool { return ob.bcalls[i].key < ob.bcalls[j].key })
+	ob.cursors = [3]uint64{k.GetLastSlashedOracleSetNonce(ctx), k.GetLastSlashedBatchBlock(ctx), k.GetLastSlashedBridgeCallNonce(ctx)}
+	ob.window = k.GetSignedWindow(ctx)
 	return ob
 }
 
@@ -630,9 +729,17 @@ func (h *hist) coqObs(ob obsT) string {
 		pe = append(pe, lib.ZU(p))
 	}
 	for _, o := range ob.oracles {
-		os = append(os, fmt.Sprintf("(%s, (%s, %s, %s, %s))", lib.Z(o.id), lib.ZBig(o.stake), lib.Bool(o.online), lib.Z(o.bridger), lib.Z(o.slash)))
+		os = append(os, fmt.Sprintf("(%s, (%s, %s, %s, %s, %s))", lib.Z(o.id), lib.ZBig(o.stake), lib.Bool(o.online), lib.Z(o.bridger), lib.Z(o.slash), lib.Z(o.start)))
 	}
-	return fmt.Sprintf("mk_obs %d %d %s %s %s %s %s", ob.acc, ob.lastObs, lib.ZBig(ob.total), lib.List(lb), lib.List(ats), lib.List(pe), lib.List(os))
+	objs := func(l []objObs) string {
+		var out []string
+		for _, x := range l {
+			out = append(out, fmt.Sprintf("(%d, %d, %s)", x.key, x.height, lib.ZList(x.confirms)))
+		}
+		return lib.List(out)
+	}
+	return fmt.Sprintf("mk_obs %d %d %s %s %s %s %s %s %s %s (%d, %d, %d) %d", ob.acc, ob.lastObs, lib.ZBig(ob.total), lib.List(lb), lib.List(ats), lib.List(pe), lib.List(os),
+		objs(ob.osets), objs(ob.batches), objs(ob.bcalls), ob.cursors[0], ob.cursors[1], ob.cursors[2], ob.window)
 }
 
 func (h *hist) coq() string {
